@@ -1878,6 +1878,9 @@ Section Scr.
       + apply IT_enq_other; discriminate.
       + apply IT_sched_redraw.
       + apply IT_throw. + apply IT_throw. + apply IT_force_quit.
+      + apply IT_throw.
+      + apply IT_enq_other; discriminate.
+      + apply IT_enq_other; discriminate.
       + apply IT_get_input_blocking.
       + apply IT_wr_scr; reflexivity.
       + apply IT_wr_scr; reflexivity.
